@@ -1,6 +1,6 @@
 (** C07 — property theorems (statements only; proofs by [exact]). *)
 From Coq Require Import ZArith QArith Qround List.
-From RlibV Require Import C11.Model C07.Model C07.Spec C07.Trace C07.Corr C07.Scope C07.Proofs C07.ProofsFits C07.ProofsCorr.
+From RlibV Require Import C11.Model C07.Model C07.Spec C07.Trace C07.Corr C07.Scope C07.Proofs C07.ProofsFits C07.ProofsCorr C07.ProofsLit.
 Open Scope Z_scope.
 
 (** Rational::new(a, b), b <> 0 of either sign: lowest terms, positive denominator, value a/b *)
@@ -83,3 +83,12 @@ Proof. exact floor_bounds. Qed.
 (** ceil x is the least integer >= x *)
 Theorem c07_ceil_least : forall x : rat, 0 < rb x -> exists n, ceil x = Some (Rat n 1) /\ (inject_Z (n - 1) < to_Q x)%Q /\ (to_Q x <= inject_Z n)%Q.
 Proof. exact ceil_bounds. Qed.
+
+(** operands that are not in lowest terms (struct literal a/b with b > 0: the fields are public) give exactly the
+    results of Rational::new of their fields, for every operator, cmp, floor and ceil *)
+Theorem c07_unreduced_same : forall x y x' y' : rat, 0 < rb x -> 0 < rb y -> small x -> small y -> new (ra x) (rb x) = Some x' -> new (ra y) (rb y) = Some y' -> add x y = add x' y' /\ sub x y = sub x' y' /\ mul x y = mul x' y' /\ (ra y <> 0 -> div x y = div x' y') /\ cmp x y = cmp x' y' /\ floor x = floor x' /\ ceil x = ceil x'.
+Proof. exact unreduced_same. Qed.
+
+(** a canonical value is a fixed point of Rational::new (results of earlier operations, new_int, ZERO, ONE as operands) *)
+Theorem c07_new_canonical_id : forall x : rat, canonical x -> Z.abs (rb x) < 2 ^ 130 -> new (ra x) (rb x) = Some x.
+Proof. exact new_canonical_id. Qed.
